@@ -101,6 +101,7 @@ func prop(c harness.Case) harness.Result {
 	if s := c.S["names"]; s != "" {
 		specs = append(specs, s)
 	}
+	reused := &cm.HTMLRenderer{}
 	for _, cfg := range []struct {
 		soft   cm.SoftBreakBehavior
 		ignore bool
@@ -139,8 +140,15 @@ func prop(c harness.Case) harness.Result {
 				}
 				libF, rej = func(t []byte) bool { return seen[string(t)] }, func(n string) bool { return seen[n] }
 			}
+			// one renderer value serves all predicates of a case in turn (every other
+			// case): what it writes depends on the predicate it has at the call
 			var fb bytes.Buffer
-			(&cm.HTMLRenderer{ReferenceMap: refs, SoftBreakBehavior: soft, IgnoreRaw: cfg.ignore, FilterTag: libF}).Render(&fb, blocks)
+			r := &cm.HTMLRenderer{}
+			if len(c.In)%2 == 1 {
+				r = reused
+			}
+			r.ReferenceMap, r.SoftBreakBehavior, r.IgnoreRaw, r.FilterTag = refs, soft, cfg.ignore, libF
+			r.Render(&fb, blocks)
 			filtered := fb.String()
 			if err := align(plain, filtered); err != nil {
 				res.Err = fmt.Errorf("predicate %s: %v\n unfiltered: %q\n filtered:   %q", spec, err, plain, filtered)
